@@ -5,7 +5,7 @@
 From Coq Require Import String.
 From Coq Require Import List Arith ZArith.
 Import ListNotations.
-From YP Require Import Base.Str Term.Term Unify.Unify Engine.Db Engine.DbFacts Engine.DbFactsThms Engine.DbHeap Engine.DbHeapThms.
+From YP Require Import Base.Str Term.Term Term.Fast Unify.Unify Unify.Fast Engine.Frame Engine.Db Engine.DbCursor Engine.DbFacts Engine.DbFactsThms Engine.DbHeap Engine.DbHeapThms Engine.DbProg Engine.DbProgInv Engine.DbProgVisits.
 
 (* "A fact stored by assert holds the value its argument had at the moment of the assertion, at every
    depth of the term": the stored arguments are den s values (deep dereference: any chain, any nesting)
@@ -118,3 +118,90 @@ Example C13_nonvacuous :
   let s := [(1, TAtom (d "a")); (0, TFun (d "f") [TVar 1])] in
   wf s /\ answer_init s 3 [TVar 0; TVar 2; TVar 2] = ([TFun (d "f") [TAtom (d "a")]; TVar 3; TVar 3], 4).
 Proof. split; [repeat constructor|vm_compute; reflexivity]. Qed.
+
+(* ---- the same invariant OVER ALL COMPILED-CODE HISTORIES (DbProg.solve: goals on dynamic facts and on compiled
+   predicates, =, asserta/assertz, retract, retractall, goals suspended inside each other to any depth) ----
+   prog_ok: every clause mentions only its own variables 0 .. cnv-1.  visits uf prog n c c': the run of solve
+   started in configuration c reaches the activation c' (DbProgVisits.v: the activations of the depth-first
+   search in execution order; a configuration = goals still to run, bindings, global state, and - ghost - the
+   stack of suspended goals with their arguments and the rest of their snapshots).  live_fact c' f: f is
+   stored, or is still held in the snapshot of a suspended goal (it may have been retracted meanwhile).
+   cfg_inv F c: the invariant for the set F of fact-owned cells; cfg_inv_init: it holds when a query starts. *)
+
+(* the invariant is preserved along every run (F only grows, by cells that are new when they are added) *)
+Theorem C13_compiled_invariant : forall uf prog, prog_ok prog -> forall n c c', visits uf prog n c c' ->
+  forall F, cfg_inv F c -> exists F', grow F (gn (cg c)) F' (gn (cg c')) /\ cfg_inv F' c'.
+Proof. exact visits_inv. Qed.
+Print Assumptions C13_compiled_invariant.
+
+(* ... and by a complete run of a body (the state in which the next query starts) *)
+Theorem C13_compiled_invariant_big_step : forall uf prog, prog_ok prog -> forall n gs s g g' a tr F,
+  cinv F gs s g -> solve uf prog n gs s g = Some (g', a, tr) ->
+  exists F', grow F (gn g) F' (gn g') /\ ginv F' g'.
+Proof. exact solve_inv. Qed.
+Print Assumptions C13_compiled_invariant_big_step.
+
+(* "Unbound variables inside a stored fact belong to the fact": in every configuration a compiled run reaches,
+   every variable w inside a live fact is unbound, occurs in no binding, in no goal still to run, in no
+   suspended goal, and is an allocated cell (no later Variable() is w) *)
+Theorem C13_compiled_fact_vars_never_bound : forall uf prog, prog_ok prog -> forall n c c' F,
+  cfg_inv F c -> visits uf prog n c c' ->
+  forall f t w, live_fact c' f -> In t (fargs f) -> occurs w t = true ->
+    Term.lookup w (cst c') = None /\
+    (forall v u, In (v, u) (cst c') -> v <> w /\ occurs w u = false) /\
+    (forall gl a, In gl (cgs c') -> In a (goal_terms gl) -> occurs w a = false) /\
+    (forall fr a, In fr (cstk c') -> In a (fst fr) -> occurs w a = false) /\
+    w < gn (cg c').
+Proof. exact prog_fact_vars_never_bound. Qed.
+Print Assumptions C13_compiled_fact_vars_never_bound.
+
+(* "... and are fresh at every use": in every configuration a compiled run reaches, a use of a live fact unifies
+   the goal with copy_args [] (fargs f) n - a function of the stored arguments and the allocation counter alone -
+   whose cells are new, unbound and occur in no live fact *)
+Theorem C13_compiled_uses_see_stored_value : forall uf prog, prog_ok prog -> forall n c c' F,
+  cfg_inv F c -> visits uf prog n c c' ->
+  forall f goal, live_fact c' f ->
+    answer_match_fast uf (cst c') (gn (cg c')) goal (fargs f) =
+      (unify_arrays uf (cst c') goal (fst (copy_args [] (fargs f) (gn (cg c')))), snd (copy_args [] (fargs f) (gn (cg c')))) /\
+    (forall t w, In t (fst (copy_args [] (fargs f) (gn (cg c')))) -> occurs w t = true ->
+       gn (cg c') <= w /\ Term.lookup w (cst c') = None /\
+       forall f' u, live_fact c' f' -> In u (fargs f') -> occurs w u = false).
+Proof. exact prog_uses_see_stored_value. Qed.
+Print Assumptions C13_compiled_uses_see_stored_value.
+
+Theorem C13_compiled_invariant_at_query_start : forall nv work gs,
+  Forall (goal_in (below nv)) gs -> cfg_inv (fun _ => false) (cfg_init nv work gs).
+Proof. exact cfg_inv_init. Qed.
+Print Assumptions C13_compiled_invariant_at_query_start.
+
+(* non-vacuity: X0 = f(X1), assertz(p(X0, X2)), X1 = a, p(X3, d): the run reaches the activation inside the goal
+   p(X3, d) - the fact p(f(_4), _5) is live, the goal is suspended with X3 = f(_6): the fact's cells 4, 5 are
+   nobody's *)
+Ltac tin_small := intros w Hw; do 8 (destruct w as [|w]; [try reflexivity; simpl in Hw; discriminate|]); simpl in Hw; discriminate.
+Example C13_compiled_nonvacuous :
+  let a := TAtom (d "a") in let dd := TAtom (d "d") in let f x := TFun (d "f") [x] in
+  let gs := [GUnify (TVar 0) (f (TVar 1)); GAssert false (TFun (d "p") [TVar 0; TVar 2]); GUnify (TVar 1) a;
+             GCall (d "p") [TVar 3; dd]] in
+  cfg_inv (fun _ => false) (cfg_init 4 100 gs) /\
+  exists s' g' stk', visits 20 [] 4 (cfg_init 4 100 gs) ([], s', g', stk') /\
+    map fargs (gdb g' (d "p", 2)) = [[f (TVar 4); TVar 5]] /\ den s' (TVar 3) = f (TVar 6) /\ den s' (TVar 0) = f a /\
+    stk' = [([TVar 3; dd], [])].
+Proof.
+  cbv zeta. split.
+  - apply cfg_inv_init. repeat constructor; simpl; try tin_small.
+  - eexists. eexists. eexists. split.
+    + eapply v_call; [eapply c_unify; [reflexivity|vm_compute; reflexivity]|].
+      eapply v_call; [eapply c_assert; [reflexivity|vm_compute; reflexivity|vm_compute; reflexivity]|].
+      eapply v_call; [eapply c_unify; [reflexivity|vm_compute; reflexivity]|].
+      eapply v_call; [eapply c_call_facts; [reflexivity|]|apply v_here].
+      vm_compute. eapply cq_here. vm_compute. reflexivity.
+    + vm_compute. repeat split.
+Qed.
+
+(* adequacy of `visits`: the relation covers the run - every solution (answer store) of a run of solve is a
+   configuration that the run visits (so the theorems above hold in particular at every solution) *)
+Theorem C13_compiled_visits_covers_solutions : forall uf prog n gs s g g' a tr stk s',
+  solve uf prog n gs s g = Some (g', a, tr) -> In s' a ->
+  exists g'' stk', visits uf prog n (gs, s, g, stk) ([], s', g'', stk').
+Proof. exact visits_answers. Qed.
+Print Assumptions C13_compiled_visits_covers_solutions.
